@@ -183,6 +183,10 @@ func genC17(rt *rapid.T) C17Case {
 			c.Main[i].Niche = rapid.SampledFrom(wideTexts).Draw(rt, "wideniche")
 		case 2:
 			c.Main[i].Description = rapid.SampledFrom(wideTexts).Draw(rt, "widedesc") + " " + c.Main[i].Description
+		case 3:
+			c.Main[i].Command += " " + rapid.SampledFrom(escapeLookalikes).Draw(rt, "esccmd")
+		case 4:
+			c.Main[i].Description += " " + rapid.SampledFrom(escapeLookalikes).Draw(rt, "escdesc")
 		}
 	}
 	if rapid.Bool().Draw(rt, "hasnb") {
